@@ -3,7 +3,7 @@ from analysis.flow import must_cross, return_points, term_pt, trace_op, trace_pl
 from analysis.guards import facts_at
 from analysis.mir import callee_matches, op_place
 from analysis.sym import Sym, render, is_call, const_val, walk
-from rules.common import has_cmp, option_fact, texts, blocks_assigning_variant, disjunct_facts
+from rules.common import has_cmp, option_fact, texts, blocks_assigning_variant, disjunct_facts, value_alternatives
 
 REQUIRES = ("websocket",)
 WSMSG = "tokio_tungstenite::tungstenite::Message"
@@ -80,10 +80,20 @@ def run(facts, R):
             continue
         pe = sym.op(payload)
         fs = facts_at(b, sym, facts, i)
-        guarded = ok_fact(fs, lambda e: is_call(e, CHECK) and is_call(e[2][1], "len") and e[2][1][2][0] == pe)
-        if not guarded and is_call(pe, "message::Message::to_vec", "message::Message::into_wire_bytes"):
-            # the guard may be computed before the bytes exist: serialized_len(m) is the length to_vec(m) will have (C01 emission rules)
-            guarded = ok_fact(fs, lambda e: is_call(e, CHECK) and is_call(e[2][1], "message::Message::serialized_len") and e[2][1][2][0] == pe[2][0])
+        pes = [pe]
+        if getattr(b, "changed", False):
+            # a payload that reaches the constructor through a merge (`check.map(|()| bytes)?`): one value per feasible way
+            from analysis.sym import split_eval
+            alts = split_eval(sym, i, j, lambda v_: v_.op(payload))
+            if alts:
+                pes = [v_ for _, v_ in alts]
+        guarded = True
+        for pe in pes:
+            g1 = ok_fact(fs, lambda e: is_call(e, CHECK) and is_call(e[2][1], "len") and e[2][1][2][0] == pe)
+            if not g1 and is_call(pe, "message::Message::to_vec", "message::Message::into_wire_bytes"):
+                # the guard may be computed before the bytes exist: serialized_len(m) is the length to_vec(m) will have (C01 emission rules)
+                g1 = ok_fact(fs, lambda e: is_call(e, CHECK) and is_call(e[2][1], "message::Message::serialized_len") and e[2][1][2][0] == pe[2][0])
+            guarded = guarded and g1
         R.check(guarded, "binary-is-guarded", b.path, "Binary<-check_outbound",
                 "Binary(%s) is neither frame_outbound's result nor dominated by check_outbound(len(payload)) == Ok; origins=%s guards=%s"
                 % (render(pe), origs, texts(fs)), s.get("span"), "dominated by check_outbound(len(%s)) Ok" % render(pe))
@@ -152,15 +162,21 @@ def run(facts, R):
     oks = blocks_assigning_variant(co, "std::result::Result", "Ok")
     R.floor("boundary-table", len(errs), 1, "Err rows of check_outbound")
     R.floor("boundary-table", len(oks), 1, "Ok rows of check_outbound")
+    def _never(fs):
+        # `size > usize::MAX` holds for no size: that way into a row does not exist
+        return has_cmp(fs, "Lt", lambda a: a[0] == "const" and a[1] == (1 << 64) - 1, lambda x: x[0] == "arg" and x[1] == 2)
     for i, j, s in errs:
-        fs = facts_at(co, csym, facts, i)
-        some = option_fact(fs, lambda e: _f(e, "assumed_peer_frame_limit"), "Some")
-        strict = has_cmp(fs, "Lt", lambda a: "assumed_peer_frame_limit" in render(a), lambda x: x[0] == "arg" and x[1] == 2)
-        R.check(some and strict, "boundary-table", co.path, "Err-row",
-                "check_outbound rejects on a path not guarded by Some(limit) && size > limit (strict); guards: %s" % texts(fs), s.get("span"),
-                "Err iff Some(limit) and size > limit")
+        for fs in (value_alternatives(co, csym, facts, i, facts_at(co, csym, facts, i)) if getattr(co, "changed", False) else [facts_at(co, csym, facts, i)]):
+            if _never(fs):
+                continue
+            some = option_fact(fs, lambda e: _f(e, "assumed_peer_frame_limit"), "Some")
+            strict = has_cmp(fs, "Lt", lambda a: "assumed_peer_frame_limit" in render(a), lambda x: x[0] == "arg" and x[1] == 2)
+            R.check(some and strict, "boundary-table", co.path, "Err-row",
+                    "check_outbound rejects on a path not guarded by Some(limit) && size > limit (strict); guards: %s" % texts(fs), s.get("span"),
+                    "Err iff Some(limit) and size > limit")
     for i, j, s in oks:
-        for fs in disjunct_facts(co, csym, facts, i):
+        for fs0 in disjunct_facts(co, csym, facts, i):
+          for fs in (value_alternatives(co, csym, facts, i, fs0) if getattr(co, "changed", False) else [fs0]):
             none = option_fact(fs, lambda e: _f(e, "assumed_peer_frame_limit"), "None")
             le = has_cmp(fs, "Le", lambda x: x[0] == "arg" and x[1] == 2, lambda a: "assumed_peer_frame_limit" in render(a))
             R.check(none or le, "boundary-table", co.path, "Ok-row",
